@@ -14,6 +14,7 @@ from ..astutil import calls_in, dotted, name_stores, names_in, test_atoms, unpar
 from ..cfg import no_exc
 from ..report import Registry, chain, sub
 from ._helpers_rules_d import call_nodes, callee_is, guard_atom_set, kw
+from ._helpers_rob_i import nf
 
 R = Registry(
     "C46",
@@ -46,6 +47,18 @@ SESSION = "orm/session.py"
 IS = f"{STATE}::InstanceState"
 
 
+def _atom_nodes(test: ast.expr, pol: bool):
+    """Conjunctive atoms of a branch outcome as AST nodes: `not`, `and` (taken true), `or` (taken false) decomposed."""
+    if isinstance(test, ast.UnaryOp) and isinstance(test.op, ast.Not):
+        return _atom_nodes(test.operand, not pol)
+    if isinstance(test, ast.BoolOp) and ((isinstance(test.op, ast.And) and pol) or (isinstance(test.op, ast.Or) and not pol)):
+        out = []
+        for v in test.values:
+            out.extend(_atom_nodes(v, pol))
+        return out
+    return [(test, pol)]
+
+
 def _loop_iter_must_pass(g, loop_node, through, skip_true_of=()):
     """None if every iteration of `loop_node` (entry -> back to the loop head / exit) passes a `through` node; paths that
     take the TRUE outcome of a test in `skip_true_of` are not considered."""
@@ -60,7 +73,8 @@ def _loop_iter_must_pass(g, loop_node, through, skip_true_of=()):
              "present in the dict are unconditional; _expire_attributes: every iteration pops the key from the dict "
              "(only the documented no_loader skip excepted) and scalar-loader attributes are added to expired_attributes")
 def r1(ctx):
-    f = ctx.func(f"{IS}._expire")
+    # normal form: extracted private helpers are inlined at their call, `x = self.a.b` aliases resolved
+    f = nf(ctx, ctx.func(f"{IS}._expire"))
     g = ctx.cfg(f)
     d = f.params[1]
     # expired flag
@@ -70,6 +84,13 @@ def r1(ctx):
     ctx.check(bool(flag) and w is None, f"{f.key}:sets-expired-flag", "_expire() can return without self.expired = True", "self.expired = True on every path", f.loc, w)
     # all loader attributes registered
     reg = call_nodes(g, lambda c: callee_is(c, "self.expired_attributes.update") and len(c.args) == 1 and "_loader_impls" in unparse(c.args[0]))
+    # the same registration spelt as a loop: `for impl in manager._loader_impls: self.expired_attributes.add(impl.key)` -- every
+    # iteration must add the loop variable's key
+    for lp in [n for n in g.nodes if n.kind == "for" and "_loader_impls" in unparse(n.stmt.iter) and isinstance(n.stmt.target, ast.Name)]:
+        lv = lp.stmt.target.id
+        adds = call_nodes(g, lambda c: callee_is(c, "self.expired_attributes.add") and len(c.args) == 1 and dotted(c.args[0]) == f"{lv}.key")
+        if adds and _loop_iter_must_pass(g, lp.id, adds) is None:
+            reg.append(lp.id)
     w = g.must_pass([g.entry], [g.exit], reg, edge_ok=no_exc)
     ctx.check(bool(reg) and w is None, f"{f.key}:registers-all-loader-attributes",
               "_expire() does not unconditionally add the keys of manager._loader_impls to expired_attributes: the next attribute access finds nothing to "
@@ -90,7 +111,7 @@ def r1(ctx):
               "_expire() does not unconditionally delete every mapped key (manager._all_key_set) from the instance dict: a stale value stays readable after "
               "expire()/commit()", "for key in manager._all_key_set.intersection(dict_): del dict_[key]", f.loc, w)
     # per-attribute sibling
-    f = ctx.func(f"{IS}._expire_attributes")
+    f = nf(ctx, ctx.func(f"{IS}._expire_attributes"))
     g = ctx.cfg(f)
     d, names_p = f.params[1], f.params[2]
     loops = [n for n in g.nodes if n.kind == "for" and dotted(n.stmt.iter) == names_p and isinstance(n.stmt.target, ast.Name)]
@@ -152,7 +173,7 @@ def r2(ctx):
               "another loader callable can run for a key that is in expired_attributes (or the expired test does not lead to _load_expired): an expired "
               "attribute is served by a stale per-instance loader instead of a reload of the row", "key in state.expired_attributes -> state._load_expired(...)", f.loc, w)
     # _load_expired
-    f = ctx.func(f"{IS}._load_expired")
+    f = nf(ctx, ctx.func(f"{IS}._load_expired"))
     g = ctx.cfg(f)
     calls = [c for c in calls_in(f.node) if callee_is(c, "expired_attribute_loader")]
     ctx.require(len(calls) == 1 and len(calls[0].args) >= 2 and isinstance(calls[0].args[1], ast.Name), "_load_expired: expired_attribute_loader(self, <names>, passive) not found")
@@ -318,11 +339,20 @@ def r4(ctx):
     ctx.check(not bad, f"{f.key}:load-wiring", "; ".join(bad), "_load_on_ident(self, stmt, state.key, refresh_state=state, only_load_props=attribute_names)", f.loc)
     raises = [n for n in g.nodes if n.kind == "stmt" and isinstance(n.stmt, ast.Raise) and "InvalidRequestError" in unparse(n.stmt)]
     good = False
+    # the load's result: the call itself inside the test, or a local every binding of which is that call
+    res_by: Dict[str, List[Optional[ast.expr]]] = {}
+    for n_, v, s_ in name_stores(f.node):
+        res_by.setdefault(n_, []).append(v)
+    res_names = {n_ for n_, vs in res_by.items() if all(isinstance(v, ast.Call) and callee_is(v, "_load_on_ident") for v in vs)}
+
+    def _is_load_result(e):
+        return (isinstance(e, ast.Call) and callee_is(e, "_load_on_ident")) or (isinstance(e, ast.Name) and e.id in res_names)
     for n in raises:
-        for t, pol in g.edge_guards(n.id):
-            if pol and isinstance(t, ast.Compare) and len(t.ops) == 1 and isinstance(t.ops[0], ast.Is) and isinstance(t.comparators[0], ast.Constant) and t.comparators[0].value is None \
-                    and isinstance(t.left, ast.Call) and callee_is(t.left, "_load_on_ident"):
-                good = True
+        for t0, pol0 in g.edge_guards(n.id):
+            for t, pol in _atom_nodes(t0, pol0):
+                if isinstance(t, ast.Compare) and len(t.ops) == 1 and isinstance(t.comparators[0], ast.Constant) and t.comparators[0].value is None and _is_load_result(t.left) \
+                        and ((isinstance(t.ops[0], ast.Is) and pol) or (isinstance(t.ops[0], ast.IsNot) and not pol)):
+                    good = True
     ctx.check(good, f"{f.key}:raises-when-row-is-gone", "refresh() of an object whose row no longer exists does not raise the documented InvalidRequestError: the object "
                                                         "silently keeps expired (empty) attributes", "if _load_on_ident(...) is None: raise InvalidRequestError", f.loc)
     # unexpire load
@@ -408,3 +438,147 @@ R.mutant("benign-expire-attributes-rename-impl", STATE, chain(
 R.mutant("benign-load-expired-two-step-narrowing", STATE, sub("        self.manager.expired_attribute_loader(self, toload, passive)\n", "        toload = toload.intersection(self.manager)\n        _n = len(toload)\n        self.manager.expired_attribute_loader(self, toload, passive)\n"), None)
 R.mutant("benign-expire-reordered", STATE, sub("        self.expired = True\n        if self.modified:\n            modified_set.discard(self)\n            self.committed_state.clear()\n            self.modified = False\n", "        if self.modified:\n            modified_set.discard(self)\n            self.committed_state.clear()\n            self.modified = False\n        self.expired = True\n"), None)
 R.mutant("benign-refresh-local-for-key", SESSION, sub("        self._expire_state(state, attribute_names)\n\n        # this autoflush previously used to occur", "        self._expire_state(state, attribute_names)\n        _names = list(attribute_names or ())\n\n        # this autoflush previously used to occur"), None)
+R.mutant('benign-rfI_10-expire-pop-alias-and-add-loop', STATE,
+         sub('\n'
+             '        self._strong_obj = None\n'
+             '\n'
+             '        if "_pending_mutations" in self.__dict__:\n'
+             '            del self.__dict__["_pending_mutations"]\n'
+             '\n'
+             '        if "parents" in self.__dict__:\n'
+             '            del self.__dict__["parents"]\n'
+             '\n'
+             '        self.expired_attributes.update(\n'
+             '            [impl.key for impl in self.manager._loader_impls]\n'
+             '        )\n',
+        '\n'
+             '        self._strong_obj = None\n'
+             '\n'
+             '        # drop memoized / lazily created per-state collections\n'
+             '        state_attrs = self.__dict__\n'
+             '        state_attrs.pop("parents", None)\n'
+             '        state_attrs.pop("_pending_mutations", None)\n'
+             '\n'
+             '        for loader_impl in self.manager._loader_impls:\n'
+             '            self.expired_attributes.add(loader_impl.key)\n'), None)
+R.mutant('benign-rfI_11-expire-attributes-hoisted-aliases', STATE,
+         sub('        pending = self.__dict__.get("_pending_mutations", None)\n'
+             '\n'
+             '        callables = self.callables\n'
+             '\n'
+             '        for key in attribute_names:\n'
+             '            impl = self.manager[key].impl\n'
+             '            if impl.accepts_scalar_loader:\n'
+             '                if no_loader and (impl.callable_ or key in callables):\n'
+             '                    continue\n'
+             '\n'
+             '                self.expired_attributes.add(key)\n'
+             '                if callables and key in callables:\n'
+             '                    del callables[key]\n'
+             '            old = dict_.pop(key, NO_VALUE)\n'
+             '            if is_collection_impl(impl) and old is not NO_VALUE:\n'
+             '                impl._invalidate_collection(old)\n'
+             '\n'
+             '            lkv = self._last_known_values\n'
+             '            if lkv is not None and key in lkv and old is not NO_VALUE:\n'
+             '                lkv[key] = old\n'
+             '\n'
+             '            self.committed_state.pop(key, None)\n',
+        '        pending = self.__dict__.get("_pending_mutations", None)\n'
+             '\n'
+             '        callables = self.callables\n'
+             '        manager = self.manager\n'
+             '        committed_state = self.committed_state\n'
+             '\n'
+             '        for key in attribute_names:\n'
+             '            impl = manager[key].impl\n'
+             '            if impl.accepts_scalar_loader:\n'
+             '                if no_loader:\n'
+             '                    # leave attributes that have their own loader alone\n'
+             '                    if impl.callable_ or key in callables:\n'
+             '                        continue\n'
+             '\n'
+             '                self.expired_attributes.add(key)\n'
+             '                if callables and key in callables:\n'
+             '                    del callables[key]\n'
+             '            old = dict_.pop(key, NO_VALUE)\n'
+             '            if old is not NO_VALUE:\n'
+             '                if is_collection_impl(impl):\n'
+             '                    impl._invalidate_collection(old)\n'
+             '\n'
+             '                lkv = self._last_known_values\n'
+             '                if lkv is not None and key in lkv:\n'
+             '                    lkv[key] = old\n'
+             '\n'
+             '            committed_state.pop(key, None)\n'), None)
+R.mutant('benign-rfI_12-unexpire-key-helper-extracted', LOADING, chain(
+    sub('def _load_scalar_attributes(mapper, state, attribute_names, passive):\n',
+        'def _identity_key_for_pending_refresh(mapper, state):\n'
+             '    """produce an identity key for a state that has none assigned yet.\n'
+             '\n'
+             '    this codepath is rare - only valid when inside a flush, and the\n'
+             "    object is becoming persistent but hasn't yet been assigned\n"
+             '    an identity_key.\n'
+             '\n'
+             '    """\n'
+             '    # check here to ensure we have the attrs we need.\n'
+             '    pk_attrs = [\n'
+             '        mapper._columntoproperty[col].key for col in mapper.primary_key\n'
+             '    ]\n'
+             '    if state.expired_attributes.intersection(pk_attrs):\n'
+             '        raise sa_exc.InvalidRequestError(\n'
+             '            "Instance %s cannot be refreshed - it\'s not "\n'
+             '            " persistent and does not "\n'
+             '            "contain a full primary key." % state_str(state)\n'
+             '        )\n'
+             '    return mapper._identity_key_from_state(state)\n'
+             '\n'
+             '\n'
+             'def _load_scalar_attributes(mapper, state, attribute_names, passive):\n'),
+    sub('    if has_key:\n'
+             '        identity_key = state.key\n'
+             '    else:\n'
+             '        # this codepath is rare - only valid when inside a flush, and the\n'
+             "        # object is becoming persistent but hasn't yet been assigned\n"
+             '        # an identity_key.\n'
+             '        # check here to ensure we have the attrs we need.\n'
+             '        pk_attrs = [\n'
+             '            mapper._columntoproperty[col].key for col in mapper.primary_key\n'
+             '        ]\n'
+             '        if state.expired_attributes.intersection(pk_attrs):\n'
+             '            raise sa_exc.InvalidRequestError(\n'
+             '                "Instance %s cannot be refreshed - it\'s not "\n'
+             '                " persistent and does not "\n'
+             '                "contain a full primary key." % state_str(state)\n'
+             '            )\n'
+             '        identity_key = mapper._identity_key_from_state(state)\n',
+        '    if has_key:\n'
+             '        identity_key = state.key\n'
+             '    else:\n'
+             '        identity_key = _identity_key_for_pending_refresh(mapper, state)\n')), None)
+# further benign variants of the same families (rob-I)
+R.mutant("benign-expire-registration-extracted-helper", STATE, chain(
+    sub("        self.expired_attributes.update(\n            [impl.key for impl in self.manager._loader_impls]\n        )\n\n        if self.callables:\n            # the per state loader callables we can remove here are\n",
+        "        self._mark_all_loader_attributes_expired()\n\n        if self.callables:\n            # the per state loader callables we can remove here are\n"),
+    sub("    def _expire_attributes(\n        self,\n        dict_: _InstanceDict,\n        attribute_names: Iterable[str],\n",
+        "    def _mark_all_loader_attributes_expired(self) -> None:\n        expired = self.expired_attributes\n        expired.update(impl.key for impl in self.manager._loader_impls)\n\n    def _expire_attributes(\n        self,\n        dict_: _InstanceDict,\n        attribute_names: Iterable[str],\n")), None)
+R.mutant("benign-load-expired-aliases-and-inverted-gate", STATE,
+         sub("        if not passive & SQL_OK:\n            return PASSIVE_NO_RESULT\n\n        toload = self.expired_attributes.intersection(self.unmodified)\n",
+             "        expired = self.expired_attributes\n        if passive & SQL_OK:\n            pass\n        else:\n            return PASSIVE_NO_RESULT\n\n        toload = expired.intersection(self.unmodified)\n"), None)
+R.mutant("benign-refresh-result-in-local", SESSION, chain(
+    sub("        if (\n            loading._load_on_ident(\n                self,\n                stmt,\n                state.key,\n                refresh_state=state,\n",
+        "        refreshed = loading._load_on_ident(\n                self,\n                stmt,\n                state.key,\n                refresh_state=state,\n"),
+    sub("                is_user_refresh=True,\n            )\n            is None\n        ):\n            raise sa_exc.InvalidRequestError(\n                \"Could not refresh instance '%s'\" % instance_str(instance)\n            )\n",
+        "                is_user_refresh=True,\n            )\n        if refreshed is not None:\n            return\n        raise sa_exc.InvalidRequestError(\n            \"Could not refresh instance '%s'\" % instance_str(instance)\n        )\n")), None)
+R.mutant("benign-expire-state-early-return", SESSION,
+         sub("        if attribute_names:\n            state._expire_attributes(state.dict, attribute_names)\n        else:\n            # pre-fetch the full cascade since the expire is going to\n            # remove associations\n            cascaded = list(\n                state.manager.mapper.cascade_iterator(\"refresh-expire\", state)\n            )\n            self._conditional_expire(state)\n            for o, m, st_, dct_ in cascaded:\n                self._conditional_expire(st_)\n",
+             "        if attribute_names:\n            state._expire_attributes(state.dict, attribute_names)\n            return\n        # pre-fetch the full cascade since the expire is going to\n        # remove associations\n        cascaded = list(\n            state.manager.mapper.cascade_iterator(\"refresh-expire\", state)\n        )\n        self._conditional_expire(state)\n        for o, m, st_, dct_ in cascaded:\n            self._conditional_expire(st_)\n"), None)
+# the loop form of the registration must still cover every loader impl
+R.mutant("expire-registration-loop-skips-some", STATE,
+         sub("        self.expired_attributes.update(\n            [impl.key for impl in self.manager._loader_impls]\n        )\n",
+             "        for impl in self.manager._loader_impls:\n            if impl.key in dict_:\n                self.expired_attributes.add(impl.key)\n"), "C46-R1")
+R.mutant("refresh-result-in-local-missing-row-silent", SESSION, chain(
+    sub("        if (\n            loading._load_on_ident(\n                self,\n                stmt,\n                state.key,\n                refresh_state=state,\n",
+        "        refreshed = loading._load_on_ident(\n                self,\n                stmt,\n                state.key,\n                refresh_state=state,\n"),
+    sub("                is_user_refresh=True,\n            )\n            is None\n        ):\n            raise sa_exc.InvalidRequestError(\n                \"Could not refresh instance '%s'\" % instance_str(instance)\n            )\n",
+        "                is_user_refresh=True,\n            )\n        if refreshed is not None and state.expired:\n            raise sa_exc.InvalidRequestError(\n                \"Could not refresh instance '%s'\" % instance_str(instance)\n            )\n")), "C46-R4")
